@@ -4,6 +4,7 @@ import vbuild, gen_api
 from vcommon import Report, VERIF
 
 DEADLINE = {"quick": 200.0, "thorough": 2400.0}
+VECTOR_SOLUTIONS = ("radiation_integrated_intensity", "cp_normal")
 
 
 def gen_c_evals(cmasa_text, path):
@@ -151,6 +152,10 @@ def check_c12(tier):
     add_violations(rep, res, "C12")
     n, g = eval_consistency(rep, res)
     results = [res]
+    resr = run_space(exe, "c12r", tier, os.path.join(b.dir, "c12r.out"))
+    add_violations(rep, resr, "C12")
+    nr, gr = eval_consistency(rep, resr); n += nr; g += gr
+    results.append(resr)
     if tier == "thorough":
         res2 = run_space(exe, "c12v", tier, os.path.join(b.dir, "c12v.out"))
         add_violations(rep, res2, "C12")
@@ -158,7 +163,7 @@ def check_c12(tier):
         results.append(res2)
     cover(rep, results)
     rep.coverage["eval_observations"] = n; rep.coverage["distinct_assignments_evaluated"] = g
-    rep.assumptions += ["alphabet: handles {a,b} x solutions {euler_1d, heateq_2d_steady_const} x one parameter per solution with values {default, 7.5} x both registries (quick: reduced alphabet on the long double registry)",
+    rep.assumptions += ["alphabet: handles {a,b} x solutions {euler_1d, heateq_2d_steady_const} x one parameter per solution with values {default, 7.5} x both registries (quick: reduced alphabet on the long double registry); space c12r: handles {a,b} holding the radiation solution, every vector replaceable, re-initialisation with the same and another solution, init_param",
                         "reference model: map handle -> (solution, parameter map) + selection, per registry; defaults captured from a fresh process"]
     return rep.finish()
 
@@ -194,7 +199,8 @@ def check_c11(tier):
     t0 = time.time()
     per = max(5.0, (DEADLINE[tier] - 30) / len(sols))
     for s in sols:
-        res = run_space(exe, "c11", tier, os.path.join(b.dir, "c11.out"), solution=s, deadline=per)
+        # the two solutions with vector parameters have by far the largest spaces: their own budget
+        res = run_space(exe, "c11", tier, os.path.join(b.dir, "c11.out"), solution=s, deadline=(per * 12 if s in VECTOR_SOLUTIONS else per))
         add_violations(rep, res, "C11")
         results.append(res)
         if tier == "thorough":
@@ -202,7 +208,7 @@ def check_c11(tier):
                 res = run_space(exe, sp, tier, os.path.join(b.dir, "c11.out"), solution=s, deadline=per)
                 add_violations(rep, res, "C11")
                 results.append(res)
-    cover(rep, results, "; one closed space per catalogue solution: set/get on first/middle/last/unknown/empty names x values {1.5, marker(, -2.25)}, init_param, purge, sanity, display, set_vec/get_vec with lengths {0,3(,1,30)}")
+    cover(rep, results, "; one closed space per catalogue solution: set/get on first/middle/last/unknown/empty names x values {1.5, marker(, -2.25)}, init_param, purge, sanity, display, set_vec/get_vec with lengths {0,3(,1,30)} on every vector, and set_vec relative to the stored contents (one entry appended, last entry dropped, same contents again)")
     rep.coverage["solutions"] = len(sols)
     rep.assumptions += ["values restricted to the alphabet; names to first/middle/last registered + unknown + empty", "the two self-test fixtures are excluded as the property states"]
     return rep.finish()
